@@ -141,6 +141,8 @@ func (self* Administrator) createPredictor() {
 			self.predictor,_ = newBestFit(self.params.Promises)
 		case paPolyBestFit:
 			self.predictor,_ = newPolyBestFit(self.params.Promises)
+		default:
+			self.predictor = nil
 	}
 	if self.validPredictor() {
 		logInfo("Running with promises config",self.params.Promises)
